@@ -197,7 +197,8 @@ fn judge(
 fn n_grid(thorough: bool) -> Vec<usize> {
     let mut v: Vec<usize> = (1..=64).collect();
     if thorough {
-        v.extend(65..=4096);
+        v.extend(65..=512);
+        v.extend((512..=4096).step_by(37));
     }
     for k in 0..=40u32 {
         let p = 1usize << k;
@@ -217,8 +218,9 @@ fn lam_grid(thorough: bool, dense_band: bool) -> Vec<usize> {
         return (1..=256).collect();
     }
     let mut v = vec![1, 2, 3, 5, 8, 13, 21, 34, 55, 64, 80, 89, 100, 128, 144, 160, 192];
-    let step = if dense_band { 1 } else { 4 };
-    let mut l = 204;
+    v.extend((1..200).step_by(7));
+    let step = if dense_band { 1 } else { 2 };
+    let mut l = 200;
     while l <= 256 {
         v.push(l);
         l += step;
@@ -227,6 +229,87 @@ fn lam_grid(thorough: bool, dense_band: bool) -> Vec<usize> {
     v.sort();
     v.dedup();
     v
+}
+
+/// `(2·d1 − d0)/(2·d1)` is `1/2^j`: then `2·(1 − d/2)^t = 2^(−λ)` has the integer solution
+/// `t = (λ+1)/j` and the f64 code cannot see the residual `n/|F|` that pushes the minimum to `t + 1`.
+fn base_is_power_of_half(d0: usize, d1: usize) -> bool {
+    if !usable(d0, d1) {
+        return false;
+    }
+    let b0 = 2 * d1 as u128;
+    let a0 = b0 - d0 as u128;
+    let g = gcd(a0, b0);
+    a0 / g == 1 && (b0 / g).is_power_of_two()
+}
+
+/// one grid point: implementation vs exact bound (expectation) and vs the model
+fn calct_point<F: PrimeField>(
+    ctx: &mut Ctx,
+    ex: &mut Exact,
+    group: &str,
+    fname: &str,
+    q: &BigUint,
+    qs: &str,
+    lam: usize,
+    d0: usize,
+    d1: usize,
+    n: usize,
+) {
+    let id = format!("C13/{}/{}/{}/{}-{}/{}", group, fname, lam, d0, d1, n);
+    if !ctx.selected(&id) {
+        return;
+    }
+    let out: Result<usize, String> = match guarded(|| verif_hooks::calculate_t::<F>(lam, (d0, d1), n)) {
+        Ok(Ok(t)) => Ok(t),
+        Ok(Err(e)) => Err(err_kind(&e)),
+        Err(a) => Err(a),
+    };
+    let verdict = judge(ex, lam, d0, d1, n, q, &out);
+    if let Some((sig, what)) = &verdict {
+        let class = if base_is_power_of_half(d0, d1) { "/base-is-power-of-half" } else { "" };
+        ctx.rep.expect_fail(
+            &id,
+            &format!("calculate_t/{}{}", sig, class),
+            &format!("calculate_t::<{}>(λ={}, d={}/{}, n={}): {}", fname, lam, d0, d1, n, what),
+            format!(
+                "# calculate_t::<{}>(sec_param={}, distance=({}, {}), codeword_len={}) = {:?}\n# {}\n# field size q = {}\n# rerun: .build/cargo/debug/pcv-harness C13 --only {}\nc13.tspec lam={} d0={} d1={} n={} q={}\n",
+                fname, lam, d0, d1, n, out, what, qs, id, lam, d0, d1, n, qs
+            ),
+        );
+    } else {
+        // (a point already reported as an expectation failure is not reported a second time as a
+        // model disagreement)
+        let mut req = Req::new("c13.calct")
+            .arg("lam", wire::nat(lam))
+            .arg("d0", wire::nat(d0))
+            .arg("d1", wire::nat(d1))
+            .arg("n", wire::nat(n))
+            .arg("q", Val::N(qs.to_string()));
+        let outcome = match &out {
+            Ok(t) => {
+                req = req.arg("hint", wire::nat(*t));
+                ImplOutcome::Ok(vec![("t".into(), Expect::Nat(*t))])
+            }
+            Err(e) => ImplOutcome::Refuse(e.clone()),
+        };
+        ctx.ses.ask(&id, req, outcome);
+    }
+    ctx.rep.count(&format!(
+        "{}/{}/{}",
+        group,
+        fname,
+        match &out {
+            Ok(t) if *t == n => "capped",
+            Ok(_) => "least",
+            Err(_) => "refused",
+        }
+    ));
+    ctx.rep.case(
+        &format!("calculate_t::<{}>(λ={}, d={}/{}, n={}) = {:?}", fname, lam, d0, d1, n, out),
+        // distinct by (field, λ, d, bit length of n, outcome class)
+        Some(format!("{}/{}/{}/{}/{}/b{}/{}", group, fname, lam, d0, d1, usize::BITS - n.leading_zeros(), out.is_ok())),
+    );
 }
 
 fn calct_field<F: PrimeField>(ctx: &mut Ctx, fname: &str, dists: &[(usize, usize)], dense_band: bool) {
@@ -239,54 +322,7 @@ fn calct_field<F: PrimeField>(ctx: &mut Ctx, fname: &str, dists: &[(usize, usize
         ex.pows.clear();
         for &lam in &lams {
             for &n in &ns {
-                let id = format!("C13/calct/{}/{}/{}-{}/{}", fname, lam, d0, d1, n);
-                if !ctx.selected(&id) {
-                    continue;
-                }
-                let out: Result<usize, String> = match guarded(|| verif_hooks::calculate_t::<F>(lam, (d0, d1), n)) {
-                    Ok(Ok(t)) => Ok(t),
-                    Ok(Err(e)) => Err(err_kind(&e)),
-                    Err(a) => Err(a),
-                };
-                let replay = format!(
-                    "# calculate_t::<{}>(sec_param={}, distance=({}, {}), codeword_len={}) = {:?}\n# field size q = {}\n# rerun: .build/cargo/debug/pcv-harness C13 --only {}\nc13.tspec lam={} d0={} d1={} n={} q={}\n",
-                    fname, lam, d0, d1, n, out, qs, id, lam, d0, d1, n, qs
-                );
-                if let Some((sig, what)) = judge(&mut ex, lam, d0, d1, n, &q, &out) {
-                    ctx.rep.expect_fail(
-                        &id,
-                        &format!("calculate_t/{}", sig),
-                        &format!("calculate_t::<{}>(λ={}, d={}/{}, n={}): {}", fname, lam, d0, d1, n, what),
-                        replay,
-                    );
-                }
-                let mut req = Req::new("c13.calct")
-                    .arg("lam", wire::nat(lam))
-                    .arg("d0", wire::nat(d0))
-                    .arg("d1", wire::nat(d1))
-                    .arg("n", wire::nat(n))
-                    .arg("q", Val::N(qs.clone()));
-                let outcome = match &out {
-                    Ok(t) => {
-                        req = req.arg("hint", wire::nat(*t));
-                        ImplOutcome::Ok(vec![("t".into(), Expect::Nat(*t))])
-                    }
-                    Err(e) => ImplOutcome::Refuse(e.clone()),
-                };
-                ctx.ses.ask(&id, req, outcome);
-                ctx.rep.count(&format!(
-                    "calct/{}/{}",
-                    fname,
-                    match &out {
-                        Ok(t) if *t == n => "capped",
-                        Ok(_) => "least",
-                        Err(_) => "refused",
-                    }
-                ));
-                ctx.rep.case(
-                    &format!("calculate_t::<{}>(λ={}, d={}/{}, n={}) = {:?}", fname, lam, d0, d1, n, out),
-                    Some(format!("calct/{}/{}/{}/{}/{}", fname, lam, d0, d1, n)),
-                );
+                calct_point::<F>(ctx, &mut ex, "calct", fname, &q, &qs, lam, d0, d1, n);
             }
         }
         ctx.flush_model(&format!("C13-calct-{}-{}-{}", fname, d0, d1));
@@ -296,64 +332,37 @@ fn calct_field<F: PrimeField>(ctx: &mut Ctx, fname: &str, dists: &[(usize, usize
 fn part_a(ctx: &mut Ctx) {
     // the crate's distances: Ligero (ρ⁻¹ − 1)/ρ⁻¹ for ρ⁻¹ ∈ {2,4,8}, Brakedown β/r = 61000/1521000
     let mut dists: Vec<(usize, usize)> = vec![(1, 2), (3, 4), (7, 8), (61000, 1521000)];
-    let nrand = ctx.n(2, 8);
+    // random relative distances 0 < d < 1
+    let nrand = ctx.n(3, 6);
     for i in 0..nrand {
         let mut rng = rng_for(ctx.seed, "C13/dist", i as u64);
         let d1 = range(&mut rng, 2, 64);
-        let d0 = range(&mut rng, 1, d1);
+        let d0 = range(&mut rng, 1, d1 - 1);
         dists.push((d0, d1));
     }
     calct_field::<Fr>(ctx, "bls12-381-Fr", &dists, true);
-    let few = &dists[..if ctx.thorough { dists.len() } else { 4 }];
+    let few = &dists[..if ctx.thorough { 6 } else { 5 }];
     calct_field::<ark_bls12_377::Fr>(ctx, "bls12-377-Fr", few, false);
     calct_field::<ark_ed_on_bls12_381::Fr>(ctx, "ed-on-bls12-381-Fr", few, false);
-    // unusable distances: d = 0, d = 2, d > 2, zero denominator
-    let saved_only = ctx.only.clone();
-    let bad: Vec<(usize, usize)> = vec![(0, 1), (0, 7), (2, 1), (8, 4), (3, 1), (1, 0), (0, 0)];
     let q = modulus_big::<Fr>();
     let qs = q.to_string();
     let mut ex = Exact::new();
+    // boundary of the domain: relative distance exactly 1 (repetition-like codes), small grid
+    for &lam in &[1usize, 2, 64, 128, 200, 256] {
+        for &n in &[1usize, 2, 3, 4, 66, 130, 1 << 20, 1 << 40] {
+            calct_point::<Fr>(ctx, &mut ex, "calct-d1", "bls12-381-Fr", &q, &qs, lam, 1, 1, n);
+        }
+    }
+    // unusable distances: d = 0, d = 2, d > 2, zero denominator
+    let bad: Vec<(usize, usize)> = vec![(0, 1), (0, 7), (2, 1), (8, 4), (3, 1), (1, 0), (0, 0)];
     for &(d0, d1) in &bad {
         for &lam in &[1usize, 80, 128, 256] {
             for &n in &[1usize, 64, 1 << 20] {
-                let id = format!("C13/calct-unusable/{}/{}-{}/{}", lam, d0, d1, n);
-                if !ctx.selected(&id) {
-                    continue;
-                }
-                let out: Result<usize, String> = match guarded(|| verif_hooks::calculate_t::<Fr>(lam, (d0, d1), n)) {
-                    Ok(Ok(t)) => Ok(t),
-                    Ok(Err(e)) => Err(err_kind(&e)),
-                    Err(a) => Err(a),
-                };
-                if let Some((sig, what)) = judge(&mut ex, lam, d0, d1, n, &q, &out) {
-                    ctx.rep.expect_fail(
-                        &id,
-                        &format!("calculate_t/{}", sig),
-                        &format!("calculate_t(λ={}, d={}/{}, n={}): {}", lam, d0, d1, n, what),
-                        format!("# calculate_t::<Fr>({}, ({}, {}), {}) = {:?}\n# rerun: .build/cargo/debug/pcv-harness C13 --only {}\n", lam, d0, d1, n, out, id),
-                    );
-                }
-                let req = Req::new("c13.calct")
-                    .arg("lam", wire::nat(lam))
-                    .arg("d0", wire::nat(d0))
-                    .arg("d1", wire::nat(d1))
-                    .arg("n", wire::nat(n))
-                    .arg("q", Val::N(qs.clone()));
-                let outcome = match &out {
-                    Ok(t) => ImplOutcome::Ok(vec![("t".into(), Expect::Nat(*t))]),
-                    Err(e) => ImplOutcome::Refuse(e.clone()),
-                };
-                ctx.ses.ask(&id, req, outcome);
-                ctx.rep.count("calct/unusable-distance");
-                ctx.rep.case(
-                    &format!("calculate_t(λ={}, d={}/{}, n={}) = {:?}", lam, d0, d1, n, out),
-                    Some(format!("calct-unusable/{}/{}/{}/{}", lam, d0, d1, n)),
-                );
+                calct_point::<Fr>(ctx, &mut ex, "calct-unusable", "bls12-381-Fr", &q, &qs, lam, d0, d1, n);
             }
         }
     }
-    ctx.only = saved_only;
-    ctx.flush_model("C13-calct-unusable");
+    ctx.flush_model("C13-calct-boundary");
 }
 
 // ------------------------------------------------------------------------------------------------
